@@ -19,7 +19,7 @@ TECHNIQUE = (
 RULE = (
     "nosource: plain = all strings <= 5 over {a,b,' '} x all ordered tuples of <= 2 (quick) / 3 (thorough, |plain| <= 4) spans; "
     "forced: plains of distinct and repeated letters x all placements of <= k insertions from {<i>,</i>,<b>,</b>,\\n,\\t\\t} x "
-    "all <= 2-span tuples x 2 engines; long: 3 plain texts of > 200 characters (one made of repeated identical lines) x 4 insertion patterns x all word-run spans "
+    "all <= 2-span tuples x 2 engines; the same for periodic plains (abababab, ...) with <= 2 (quick) / 3 insertions from {\\t,<i>}; long: 3 plain texts of > 200 characters (one made of repeated identical lines) x 4 insertion patterns (repeated lines: + insertions on every subset of <= 2 lines) x all word-run spans "
     "and adjacent pairs x 2 engines; updater: all ordered pairs of strings <= 4 over {x,y,<} x 2 engines x 2 bisect "
     "functions x all offsets. non-trivial = >= 1 annotation that is non-empty and not overlapped by an earlier one."
 )
@@ -32,10 +32,12 @@ ASSUMPTIONS = [
 INSERTS = ["<i>", "</i>", "<b>", "</b>", "\n", "\t\t"]
 PLAINS = {"quick": ["wxyz", "wwxw"], "thorough": ["wxyz", "wxyzu", "wwxw", "abab", "w w"]}
 KMAX = {"quick": 3, "thorough": 3}
+# repeated content (period 2 and 3): a diff engine that matches the longest common block greedily picks the wrong copy
+REPEATED = {"quick": ["abababab"], "thorough": ["abababab", "abcabcabc", "ab ab ab"]}
 
 
 def bounds(tier):
-    return {"nosource_alphabet": ["a", "b", " "], "nosource_max_len": 5, "forced_plains": PLAINS[tier], "forced_inserts": INSERTS, "max_insertions": KMAX[tier], "updater_alphabet": ["x", "y", "<"], "updater_max_len": 4}
+    return {"nosource_alphabet": ["a", "b", " "], "nosource_max_len": 5, "forced_plains": PLAINS[tier], "forced_inserts": INSERTS, "periodic_plains": REPEATED[tier], "max_insertions": KMAX[tier], "updater_alphabet": ["x", "y", "<"], "updater_max_len": 4}
 
 
 def check_enclose(plain, source, pos, ss, mode, dmp):
@@ -63,6 +65,18 @@ def check_enclose(plain, source, pos, ss, mode, dmp):
     return res, len(clean)
 
 
+DIFFLIB_FP = "C10|get_diff_steps_builtin|difflib-alignment-not-insert-only"
+
+
+def difflib_misaligns(plain, source):
+    """True when Python's own difflib (asked directly, not through eyecite) aligns an insertion-only pair with
+    deletions/replacements: its greedy longest-block heuristic matched a repeated stretch of the plain text with a
+    later/earlier copy in the source. This is the call-site class of the one known finding of C10 (use_dmp=False)."""
+    from difflib import SequenceMatcher
+
+    return any(op[0] in ("delete", "replace") for op in SequenceMatcher(a=plain, b=source, autojunk=False).get_opcodes())
+
+
 def check_updater(a, b, dmp):
     from eyecite.annotate import SpanUpdater
 
@@ -85,6 +99,10 @@ def check_updater(a, b, dmp):
                 res.append((f"updater-monotone-{name}", f"update({o - 1})={prev} > update({o})={r}"))
             prev = r
     return res
+
+
+def lab_is_alignment(res):
+    return all(lab in ("enclose", "order") for lab, _ in res)
 
 
 LONG_PLAINS = [
@@ -116,6 +134,17 @@ def long_sources(plain):
         yield ("tab-before-digit",) + build(lambda i: "\t" if i < n and plain[i].isdigit() and (i == 0 or not plain[i - 1].isdigit()) else "")
         yield ("q-on-every-line",) + build(lambda i: ("</q>" if i < n and plain[i] == "\n" else "") + ("<q>" if i == 0 or (i < n and plain[i - 1] == "\n") else ""))
         yield ("tab-on-two-lines",) + build(lambda i: "\t\t" if i in (5, 43) else "")
+        # insertions on every subset of <= 2 lines (the other lines stay byte-identical to the plain text, and to
+        # each other): line-level heuristics of a diff engine must not mis-align repeated lines
+        line_starts = [0] + [i + 1 for i, c in enumerate(plain) if c == "\n" and i + 1 < n]
+        for k in (1, 2):
+            for sub in itertools.combinations(range(len(line_starts)), k):
+                marks = {}
+                for li in sub:
+                    marks[line_starts[li] + 2] = "\t"
+                    marks[line_starts[li] + 17] = "<q>"
+                    marks[line_starts[li] + 29] = "</q>"
+                yield (f"lines-{sub}",) + build(lambda i, marks=marks: marks.get(i, ""))
         return
     yield ("nl-after-space",) + build(lambda i: "\n" if 0 < i <= n and plain[i - 1] == " " else "")
     yield ("tab-before-digit",) + build(lambda i: "\t" if i < n and plain[i].isdigit() and (i == 0 or not plain[i - 1].isdigit()) else "")
@@ -158,7 +187,9 @@ def shards(tier, seed):
     for plain in PLAINS[tier]:
         for r in range(16):
             out.append({"part": "forced", "plain": plain, "r": r, "n": 16, "kmax": KMAX[tier]})
-    strs = annot.strings(["x", "y", "<"], 4)
+    for plain in REPEATED[tier]:
+        for r in range(8):
+            out.append({"part": "forced", "plain": plain, "r": r, "n": 8, "kmax": 3 if tier == "thorough" else 2, "inserts": ["\t", "<i>"]})
     for r in range(8):
         out.append({"part": "updater", "r": r, "n": 8})
     for li in range(len(LONG_PLAINS)):
@@ -205,9 +236,14 @@ def run_shard(sh):
                     if not st.samples and len(ss) > 1:
                         st.sample({"plain": plain, "source": source, "spans": [list(s) for s in ss]})
                 st.outcomes.add(h64([nclean, [r[0] for r in res]]))
+                known_class = bool(res) and not dmp and pos is not None and lab_is_alignment(res) and difflib_misaligns(plain, source)
                 for lab, det in res:
                     case = {"part": sh["part"], "plain": plain, "source": source, "pos": pos, "spans": [list(s) for s in ss], "mode": mode, "dmp": dmp}
-                    st.violation(case, f"{lab}: {det} :: plain={plain!r} source={source!r} spans={ss} mode={mode} engine={'dmp' if dmp else 'difflib'}", label=f"{sh['part']}-{lab}")
+                    msg = f"{lab}: {det} :: plain={plain!r} source={source!r} spans={ss} mode={mode} engine={'dmp' if dmp else 'difflib'}"
+                    if known_class:
+                        st.violation(case, msg, label=f"{sh['part']}-{lab}-difflib-misaligned", fingerprint=DIFFLIB_FP)
+                    else:
+                        st.violation(case, msg, label=f"{sh['part']}-{lab}")
 
     if sh["part"] == "long":
         plain = LONG_PLAINS[sh["li"]]
@@ -229,7 +265,7 @@ def run_shard(sh):
         return st
     plain = sh["plain"]
     sets = list(annot.span_sets(len(plain), 2))
-    for source, pos in itertools.islice(annot.forced_sources(plain, INSERTS, sh["kmax"]), sh["r"], None, sh["n"]):
+    for source, pos in itertools.islice(annot.forced_sources(plain, sh.get("inserts") or INSERTS, sh["kmax"]), sh["r"], None, sh["n"]):
         for ss in sets:
             run(plain, source, pos, ss, ("unchecked",), (True, False))
     return st
